@@ -95,14 +95,17 @@ pub fn check(conv: u8, b: u8, rep: &mut Report) {
                         rep.class("command:defined-after-the-pinned-commit");
                         return;
                     }
-                    if num != want {
+                    // "every other byte maps to the Unknown variant" names a variant, not a number
+                    // (benign/C19-o lets the compiler number the sentinel): the numeric value is
+                    // judged for the defined code points only, the variant for all 256 bytes
+                    if b <= 0x14 && num != want {
                         rep.violation("CommandCode::from:wrong-value", || format!("CommandCode::from({:#04x}) as u8 = {:#04x}, expected {:#04x}", b, num, want), case);
                     }
                     if v != named_command(b) {
                         let name = if b <= 0x14 { COMMAND_NAMES[b as usize] } else { "Unknown" };
                         rep.violation("CommandCode::from:wrong-variant", || format!("CommandCode::from({:#04x}) = {:?}, expected variant {}", b, v, name), case);
                     }
-                    if named_command(b) as u8 != want {
+                    if b <= 0x14 && named_command(b) as u8 != want {
                         rep.violation("CommandCode:variant-value", || format!("variant {:?} has value {:#04x}, DSP0236 says {:#04x}", named_command(b), named_command(b) as u8, want), case);
                     }
                     rep.class(if b <= 0x14 { "command:defined" } else { "command:unknown" });
@@ -123,13 +126,14 @@ pub fn check(conv: u8, b: u8, rep: &mut Report) {
                         rep.class("type:defined-after-the-pinned-commit");
                         return;
                     }
-                    if num != want {
+                    // the Invalid sentinel is identified by variant, its number is not pinned
+                    if want == b && num != want {
                         rep.violation("MessageType::from:wrong-value", || format!("MessageType::from({:#04x}) as u8 = {:#04x}, expected {:#04x}", b, num, want), case);
                     }
                     if !same_variant || by_name != want {
                         rep.violation("MessageType::from:wrong-variant", || format!("MessageType::from({:#04x}) is the variant whose DSP0239 code is {:#04x}, expected {:#04x}", b, by_name, want), case);
                     }
-                    if named_type(b) as u8 != want {
+                    if want == b && named_type(b) as u8 != want {
                         rep.violation("MessageType:variant-value", || format!("variant for {:#04x} has numeric value {:#04x}", want, named_type(b) as u8), case);
                     }
                     rep.class(if want == b { "type:defined" } else { "type:invalid" });
